@@ -297,6 +297,23 @@ PREC = {'{0}+{1}*{2}': ['v', 'v', 'v'], '{0}*{1}+{2}': ['v', 'v', 'v'], '{0}-{1}
         '{0}<{1}={2}': ['v', 'v', 'L'], '{0}*{1}-{2}/{3}': ['v', 'v', 'v', 'z'], '-({0}-{1})': ['v', 'v'], '{0}--{1}': ['v', 'v']}
 POOL['v'] = [0, 1, -1, 2, 3, 7, 10, -4, 0.5, -2.5, 1.25, 100, 3.0, 0.1, 0.2, 0.3, 1e15, 12, 0.7, 6, 2.5, 3.5, 1.5, 2.75, -0.5]
 POOL['v_'] = [True, None, '3', '2.5']
+# an int and a float less than 1 apart (a comparison that converts one operand to the other's type shows here)
+POOL['ci'] = [2, 3, -1, 0, 7]
+POOL['cf'] = [2.5, 2.25, 3.5, -0.5, 0.25, 7.75, -1.5, 2.0, 6.5]
+CLOSE = {}
+for _op in ['<', '>', '=', '<>', '<=', '>=']:
+    CLOSE['{0}' + _op + '{1}'] = ['ci', 'cf']
+    CLOSE['{1}' + _op + '{0}'] = ['ci', 'cf']
+PREC.update({'{0}+0' + _op + '{1}': ['ci', 'cf'] for _op in ['<', '>=', '=']})
+PREC.update({k: v for k, v in CLOSE.items() if k.startswith('{0}')})
+CMP.update(CLOSE)
+# arrays of dates / serials against one-element arrays
+POOL['DA'] = [[dt(2020, 2, 29), dt(2021, 1, 31)], [45000, 45001.5], [dt(2000, 1, 1, 6, 30), 43831, 43890.25], [61, 62, 63], [dt(1999, 12, 31, 23, 59, 59), dt(2024, 2, 29, 12, 0, 0)]]
+POOL['D1'] = [[dt(2020, 2, 29)], [3], [61], [0.5], [dt(1999, 12, 31, 23, 59, 59)], 3, dt(2020, 1, 1)]
+DATEOPS.update({'{0}-{1}': ['d', 'd'], '{0}-{1}+0': ['DA', 'D1'], '{0}+{1}+0': ['DA', 'D1'], '{1}+{0}-0': ['DA', 'D1'], '({0}-{1})': ['DA', 'D1']})
+ARITH.update({'({0}-{1})': ['AA', 'A1'], '({0}/{1})': ['AA', 'A1'], '({1}-{0})': ['AA', 'A1']})
+POOL['AA'] = [[1, 2, 3], [10, 20], [0.5, 1.5, 2.5, 10], [7, -1], ['3', 2], [True, 4]]
+POOL['A1'] = [[2], [0.5], [-3], 2, ['4'], [1]]
 
 FAMILY = {
     'C04': {'ops': PREC, 'fns': []},
@@ -916,9 +933,13 @@ def sem_elementwise(c, im):
     """array OP scalar / array OP one-element array acts element by element (C06, C13): the result equals the list of the scalar
     results - the scalar results taken from the library itself"""
     tpl = c.get('tpl')
-    if tpl not in ('{0}+{1}', '{0}-{1}', '{0}*{1}', '{0}/{1}'):
+    if tpl not in ('{0}+{1}', '{0}-{1}', '{0}*{1}', '{0}/{1}', '({0}-{1})', '({0}/{1})', '({1}-{0})'):
         return None
     a, b = c['args']
+    if tpl == '({1}-{0})':
+        a, b = b, a
+        tpl = '{0}-{1}'
+    tpl = tpl.strip('()')
 
     def flat_scalars(v):
         return is_list(v) and len(v) >= 1 and all(not is_list(x) for x in v)
@@ -1093,6 +1114,23 @@ def route_cases(rng, ctx, fam, scale=None):
                         c['lay'] = {'sep': sep}
                     if formula_of(c) is not None:
                         out.append(c)
+            if any(k.rstrip('+?') in ('N', 'M', 'S', 'NN') for k in sig):
+                # systematic: two-row array LITERALS with rows of unequal length, written in the formula (they are what they spell: no
+                # padding, no truncation)
+                for arr in ([['a', 'b'], ['c', 'd', 'e']], [[1, 2, 3], [4, 5]]):
+                    if name == 'TEXTJOIN':
+                        for keep in (True, False):
+                            out.append({'kind': 'route', 'fn': name, 'args': ['-', keep, arr, 'Z'], 'routes': ['var', 'var', 'lit', 'var']})
+                    else:
+                        pos = [i for i, k in enumerate(sig) if k.rstrip('+?') in ('N', 'M', 'S', 'NN')][0]
+                        args = None
+                        for _ in range(6):
+                            args = draw_args(rng, sig)
+                            if len(args) > pos:
+                                break
+                        if args and len(args) > pos:
+                            args = args[:pos] + [arr] + args[pos + 1:]
+                            out.append({'kind': 'route', 'fn': name, 'args': args, 'routes': ['var'] * pos + ['lit'] + ['var'] * (len(args) - pos - 1)})
             if name in TUPLE_OK:
                 # systematic: arrays of numbers and of texts handed over as tuples by the range listener and by a custom function
                 for arr in ([1, 2, 3], ['Nord', 'Sued', 'Ost'], [[1, 2], [3, 4]], [['a', 'b'], ['c', 'd']], [2.5], ['x', None, 'y']):
